@@ -416,7 +416,8 @@ def gen_c20(rnd, tier):
                 for _k in range(rnd.randint(1, 3)):
                     k = rnd.choice(KEYS)
                     op = rnd.choice(["get", "get", "cget", "pget", "set", "set", "cset", "cset", "publish", "delete", "pdelete", "ls", "pls",
-                                     "lock", "release", "sub", "psub", "subls", "unsub", "unsub_async", "unsubls", "unsubls_async"])
+                                     "lock", "release", "sub", "psub", "subls", "sub_async", "psub_async", "subls_async",
+                                     "unsub", "unsub_async", "unsubls", "unsubls_async"])
                     it = {"op": op}
                     if op in ("get", "cget", "delete", "lock", "release"):
                         it.update(key=k)
@@ -435,6 +436,15 @@ def gen_c20(rnd, tier):
                     elif op == "pls":
                         p = pat_of(rnd, k)
                         it.update(pat=p[:rnd.randint(0, len(p))])
+                    elif op == "sub_async":
+                        nsub += 1
+                        it.update(key=k, unique=rnd.random() < 0.5, live=rnd.random() < 0.4)
+                    elif op == "psub_async":
+                        nsub += 1
+                        it.update(pat=pat_of(rnd, k, illegal=0.0), unique=rnd.random() < 0.5, live=rnd.random() < 0.4)
+                    elif op == "subls_async":
+                        nls += 1
+                        it.update(parent=k[:rnd.randint(0, len(k))])
                     elif op == "sub":
                         nsub += 1
                         it.update(key=k, unique=rnd.random() < 0.5, live=rnd.random() < 0.4)
